@@ -313,7 +313,9 @@ Init ==
    /\ invoked = 0 /\ errs = <<>> /\ logs = <<>>
 
 (* errFunc: the default one is http.Error; the harness's custom one records the call and *)
-(* writes WriteHeader(status), Write("X") without touching the header map.               *)
+(* writes WriteHeader(status), Write("X") without touching the header map.  errMode      *)
+(* "default" builds the Validator with neither OnErr nor OnLog (its own http.Error /     *)
+(* log.Printf callbacks), "custom" with both.                                            *)
 ErrFuncOut(status, h) ==
    IF cfg.errMode = "default"
    THEN [hdr |-> "errtext", out |-> <<[e |-> "WH", s |-> status, ct |-> "errtext"],
